@@ -33,8 +33,11 @@ def run_shard(desc):
     steps = []
     cases = []  # (first step index, tree, text, fault, threaded)
     cid = 0
-    for _ in range(n):
-        t = g.program(d=rnd.randint(1, 3))
+    # global functions called with exactly one list argument (C15u: a "spread the list and try again" fallback invoked the failed
+    # handler a second time), alone, inside a list and as an assigned value
+    fixed = ["gt([1, 2])", "[sh([t(4)]), t(5)]", "u = gt([a]) ; t(6)"]
+    for j in range(n + len(fixed)):
+        t = g.program(d=rnd.randint(1, 3)) if j < n else ref.rparse(ref.rtok(fixed[j - n], model["table"]), model["table"])
         text = rend.render(t)
         _, ev0 = ref.evaluate(t, base_ctx, **model)
         # k runs one past the last invocation the program makes: a fault armed there must never fire
